@@ -160,6 +160,21 @@ class World:
     def apply(self, op):
         pass
 
+    def history_tag(self, props, first, redo):
+        """A verdict the model disagrees with is also a C12 violation when it depends on what the library did before:
+        the same call, on the same arguments, after the library's module-level state has been put back to what it
+        is right after import, gives another outcome.  (Only evaluated once a violation has been established.)"""
+        try:
+            import seams
+            seams.reset_library_state()
+            o2 = redo()
+        except Exception:  # noqa: BLE001
+            return tuple(props)
+        if (o2.ok, o2.cls) != (first.ok, first.cls):
+            self.run.probe("verdict_depends_on_history")
+            return tuple(props) + (("C12",) if "C12" not in props else ())
+        return tuple(props)
+
     def finish(self):
         pass
 
@@ -175,6 +190,59 @@ def register(cls):
     return cls
 
 
+PLAUSIBLE_ENV = ["CONDA_QUIET", "CONDA_JSON", "CONDA_DEBUG", "CONDA_VERBOSITY", "CONDA_OFFLINE", "CONDA_ALWAYS_YES", "CI", "DEBUG", "VERBOSE",
+                 "QUIET", "NO_COLOR", "CONDA_CONTENT_TRUST_DEBUG", "CCT_DEBUG", "CONDA_NO_PLUGINS", "PYTHONUNBUFFERED"]
+
+
+def draw_process_config(rng):
+    """Process configuration of a run (same for every world): logging verbosity and ecosystem environment switches.
+    The library reads none of these today; a change that makes a verdict or an output depend on them is what this
+    dimension is for."""
+    cfg = {}
+    if rng.random() < 0.2:
+        cfg["log"] = rng.choice(["DEBUG", "DEBUG", "INFO"])
+    if rng.random() < 0.2:
+        cfg["env"] = {k: rng.choice(["1", "true", "yes", "3"]) for k in rng.sample(PLAUSIBLE_ENV, rng.randint(1, 4))}
+    return cfg
+
+
+class _ProcessConfig:
+    def __init__(self, cfg):
+        self.cfg = cfg or {}
+
+    def __enter__(self):
+        import logging
+        self._env = {}
+        for k, v in (self.cfg.get("env") or {}).items():
+            self._env[k] = os.environ.get(k)
+            os.environ[k] = v
+        self._levels = None
+        if self.cfg.get("log"):
+            root = logging.getLogger()
+            pkg = logging.getLogger("conda_content_trust")
+            self._levels = (root.level, pkg.level, logging.root.manager.disable)
+            logging.disable(logging.NOTSET)
+            root.setLevel(getattr(logging, self.cfg["log"]))
+            self._handler = logging.NullHandler()
+            root.addHandler(self._handler)
+        return self
+
+    def __exit__(self, *a):
+        import logging
+        for k, v in self._env.items():
+            if v is None:
+                os.environ.pop(k, None)
+            else:
+                os.environ[k] = v
+        if self._levels is not None:
+            root = logging.getLogger()
+            root.removeHandler(self._handler)
+            root.setLevel(self._levels[0])
+            logging.getLogger("conda_content_trust").setLevel(self._levels[1])
+            logging.disable(self._levels[2])
+        return False
+
+
 def execute(world_cls, run, header, rng=None, ops=None):
     """Generation mode (rng given) or replay mode (ops given).  Library exceptions never escape a
     world's apply(); anything that does is a harness fault."""
@@ -182,7 +250,13 @@ def execute(world_cls, run, header, rng=None, ops=None):
     run.ev("header", header)
     import seams
     seams.reset_library_state()   # no state of the code under test survives from an earlier run
-    w = world_cls(run, header)
+    pc = _ProcessConfig(header.get("proc"))
+    pc.__enter__()
+    try:
+        w = world_cls(run, header)
+    except BaseException:
+        pc.__exit__()
+        raise
     try:
         if ops is None:
             for _ in range(int(header.get("n_ops", 0))):
@@ -208,7 +282,10 @@ def execute(world_cls, run, header, rng=None, ops=None):
             run.ev("finish")
             w.finish()
     finally:
-        w.close()
+        try:
+            w.close()
+        finally:
+            pc.__exit__()
     return run
 
 
@@ -245,6 +322,8 @@ def one_run(world_name, prop, tier, seed, index, keep_ops=False, profile=None):
         header = cls.header(rng, tier, prop)
         if profile:
             header.update(profile)
+        if getattr(cls, "process_config", True):
+            header["proc"] = draw_process_config(rng)
         execute(cls, run, header, rng=rng)
     except BaseException as e:  # harness fault, never a VIOLATION
         return {"index": index, "run_seed": rs, "world": world_name, "status": "harness_error",
